@@ -1,15 +1,25 @@
 (** C04 - Finishing or dropping a bar always paints its final state.
-    Only statements; every proof is [exact <lemma from IndProofs.SimProofs>].
-    Model: coq/model/Sys.v ([bar_finish] = BarState::finish_using_style src/state.rs:42-69,
-    [bar_draw] = BarState::draw src/state.rs:197-221 with force_draw |= is_finished(),
-    [tt_allow] = drawable(force_draw, now) src/draw_target.rs:159-205, [bar_drop] = Drop for
-    BarState src/state.rs:223-238, [ms_mark_zombie] = MultiState::mark_zombie src/multi.rs:244-274).
+    Only statements; every proof is [exact <lemma from IndProofs.SimProofs / SimScreenProofs>].
+    Model: coq/model/Sys.v ([bar_finish] = BarState::finish_using_style src/state.rs:43-72,
+    [bar_draw] = BarState::draw src/state.rs:200-224 with force_draw |= is_finished(),
+    [tt_allow] = drawable(force_draw, now) src/draw_target.rs:162-208, [bar_drop] = Drop for
+    BarState src/state.rs:226-241, [ms_mark_zombie] = MultiState::mark_zombie src/multi.rs:244-274).
+    LEVELS.  The theorems named `_partial` below are CALL-SEQUENCE level: they say which TermLike
+    calls a finishing call makes ([draw_calls] = the calls of DrawState::draw_to_term for a line
+    list), not what a terminal shows.  In particular they hold for ANY height H: when the frame
+    is taller than the terminal, [draw_calls] stops at the height `break` of draw_to_term and the
+    final frame / the supplied message is painted only in part or not at all (C19 territory: open
+    findings D14, D17).  The screen-level statement for the standalone bar is
+    [C04_final_screen_standalone], under C01's explicit proviso [Fits] (the bar rows of every
+    painted frame fit the height); for MultiProgress members the screen level is
+    [C04_kept_screen_partial] (appended below by the MultiScreen development, proviso FitsAll).
     The theorems quantify over EVERY state [s] - in particular every state of both limiters
     ([tt_rl] inside the target, [b_ap]) and every time stamp [now]: the proof is the case split
     `force' = true` bypasses [tt_allow], not a timing argument.  [no_faults]: no terminal call
     fails (C18 covers failing terminals). *)
 From IndModel Require Import Base Text Draw Sys SimSpec.
-From IndProofs Require Import SimProofs.
+From IndModel Require Import Term SingleBar.
+From IndProofs Require Import SimProofs SimScreenProofs.
 From Coq Require Import List NArith.
 Import ListNotations.
 Open Scope N_scope.
@@ -30,12 +40,13 @@ Theorem C04_final_state : forall k x,
 Proof. exact final_of_spec. Qed.
 Print Assumptions C04_final_state.
 
-(** C04_final_frame, standalone bar on a terminal: from ANY state, at ANY time, each finish
+(** C04_final_frame, standalone bar on a terminal, CALL level (`_partial`: the property speaks
+    about the screen - see C04_final_screen_standalone for that, under Fits): from ANY state, at ANY time, each finish
     variant paints: the calls are exactly those of a draw of the final state's frame over the
     previous frame ([tt_n], alignment, cursor flag as the history left them); afterwards the bar
     IS that final state (only last_line_count / cursor flag updated), is_finished() holds, and
     nothing else changed. *)
-Theorem C04_final_frame_standalone : forall W H s b tg k now,
+Theorem C04_final_frame_standalone_partial : forall W H s b tg k now,
   b_target (get_bar s b) = TTerm tg ->
   let fb := final_of k (get_bar s b) in
   let ls := frame_of fb in
@@ -49,11 +60,12 @@ Theorem C04_final_frame_standalone : forall W H s b tg k now,
   s_calls s' = s_calls s + N.of_nat (length calls) /\
   s_mp s' = s_mp s /\ (forall j, j <> b -> get_bar s' j = get_bar s j).
 Proof. exact finish_paints_standalone. Qed.
-Print Assumptions C04_final_frame_standalone.
+Print Assumptions C04_final_frame_standalone_partial.
 
-(** C04_final_frame, member of a visible MultiProgress: the finish call is a forced draw of the
+(** C04_final_frame, member of a visible MultiProgress, CALL level (`_partial`: nothing about
+    the screen here; no height proviso, see the header): the finish call is a forced draw of the
     whole MultiProgress (orphan lines of earlier bar.println calls first) ... *)
-Theorem C04_final_frame_member : forall W H s b idx tg k now,
+Theorem C04_final_frame_member_partial : forall W H s b idx tg k now,
   b_target (get_bar s b) = TMulti idx -> ms_target (s_mp s) = TTerm tg ->
   let fb := final_of k (get_bar s b) in
   let m1 := ms_store (s_mp s) idx [] (frame_of fb) in
@@ -64,7 +76,7 @@ Theorem C04_final_frame_member : forall W H s b idx tg k now,
   s_calls s' = s_calls s + N.of_nat (length calls) /\
   (forall j, j <> b -> get_bar s' j = get_bar s j).
 Proof. exact finish_paints_member. Qed.
-Print Assumptions C04_final_frame_member.
+Print Assumptions C04_final_frame_member_partial.
 
 (** ... whose line list carries the final frame at the member's place in the ordering, between
     the frames of the members before and after it. *)
@@ -77,14 +89,27 @@ Theorem C04_member_frame_place : forall m idx fr pre post,
 Proof. exact compose_store. Qed.
 Print Assumptions C04_member_frame_place.
 
-(** C04_iter / finish_using_style: ProgressBar::finish_using_style - which is what
-    ProgressBarIter::next does when the wrapped iterator returns None and the bar is not
-    finished (src/iter.rs:120-130) - is finish with the stored ProgressFinish: both theorems
-    above apply with k = on_finish, whatever it is. *)
-Theorem C04_iter : forall W H fails s b now,
+(** finish_using_style() is finish with the stored ProgressFinish.  This is a TRANSCRIPTION
+    lemma (proved by reflexivity: Sys.v gives both ops the same body), recorded so that the
+    final-frame theorems visibly apply to it with k = on_finish, whatever it is. *)
+Theorem C04_finish_using_style : forall W H fails s b now,
   step W H fails s now (OFinishUsingStyle b)
   = step W H fails s now (OFinish b (b_on_finish (get_bar s b))).
 Proof. exact finish_using_style_eq. Qed.
+Print Assumptions C04_finish_using_style.
+
+(** C04_iter: [iter_none_step] (SimSpec.v) transcribes ProgressBarIter::next for an exhausted
+    iterator, guard included (src/iter.rs:125-126: `else if !self.progress.is_finished()
+    { self.progress.finish_using_style() }`): on a finished bar nothing happens at all - no call,
+    no state change; on an unfinished bar it IS finish with the stored ProgressFinish, so it
+    paints the final frame by the theorems above.  That the iterator adaptor really behaves like
+    [iter_none_step] is checked on the implementation (c04.rs executes `wrap_iter` loops call by
+    call), not proved: iter.rs is not part of Sys.v. *)
+Theorem C04_iter : forall W H fails s now b,
+  (finished (get_bar s b) = true -> iter_none_step W H fails s now b = (s, [], true)) /\
+  (finished (get_bar s b) = false ->
+   iter_none_step W H fails s now b = step W H fails s now (OFinish b (b_on_finish (get_bar s b)))).
+Proof. exact iter_none_spec. Qed.
 Print Assumptions C04_iter.
 
 (** dropping the last handle of an UNFINISHED bar: the calls of finish_using_style, the same
@@ -196,6 +221,61 @@ Example C04_nonvacuous_kept :
    ms_zombie_lines (s_mp s') = 1 /\ target_n (ms_target (s_mp s')) = 1 /\ ms_order (s_mp s') = [1]).
 Proof.
   split; [repeat constructor; eexists; split; reflexivity|]. vm_compute. repeat split.
+Qed.
+
+(* ================================================================== screen level, standalone bar (model/SingleBar.v, Term.v) *)
+(** C04_final_screen_standalone: the single standalone bar on a terminal, ANY history [h] over
+    the C01 alphabet followed by a finishing call [o] on it - finish / finish_with_message /
+    finish_and_clear / abandon / abandon_with_message (OFinish 0 k), finish_using_style, or the
+    drop of the unfinished bar ([finishing_op] = Some k, k the ProgressFinish applied) - under
+    C01's provisos: W, H >= 1; the terminal starts with earlier output [pre] and the cursor on a
+    fresh line ([ready]); the history avoids C01's one excluded suspend situation ([hist_ok]: an
+    empty first line written by a closure right after a text-only draw); and [Fits]:
+    THE BAR ROWS OF EVERY PAINTED FRAME, THE FINAL ONE INCLUDED, FIT THE TERMINAL HEIGHT.
+    Then, executing every emitted TermLike call on the terminal model (Term.v, an assumption
+    validated against the vt100 crate), the screen is exactly
+        pre ++ wrap W (log so far) ++ wrap W (frame_of final)      (only blank rows below)
+    where [final] is the state C04_final_state describes (nothing for the clearing variant), the
+    cursor is at column 0 of the first row below, and the bar's logic is that final state -
+    however the limiters stand: the history [h] is arbitrary, in particular it may exhaust both
+    limiters immediately before the finishing call. *)
+Theorem C04_final_screen_standalone :
+  forall (W H : N) (pre : list (list N)) (s0 : sys) (t0 : term) (h : list (N * op)) (now : N) (o : op),
+  1 <= W -> 1 <= H ->
+  sb_initial s0 -> ready (N.to_nat W) (N.to_nat H) pre t0 ->
+  hist_ok W H s0 (ghost_for t0) (h ++ [(now, o)]) -> Fits W H s0 (h ++ [(now, o)]) ->
+  let st1 := sb_run W H (s0, ghost_for t0, t0) h in
+  let st2 := sb_run W H (s0, ghost_for t0, t0) (h ++ [(now, o)]) in
+  forall k, finishing_op (fst (fst st1)) o = Some k ->
+  let final := final_of k (get_bar (fst (fst st1)) 0) in
+  let rows := pre ++ wrap (N.to_nat W) (g_log (snd (fst st1))) ++ wrap (N.to_nat W) (map lt (frame_of final)) in
+  (exists j, screen (N.to_nat W) (snd st2)
+             = map (pad (N.to_nat W)) rows ++ repeat (repeat SP (N.to_nat W)) j)
+  /\ next_cell (N.to_nat W) (snd st2) = (length rows, 0%nat)
+  /\ logic_of (get_bar (fst (fst st2)) 0)
+     = (match o with ODrop _ => lw_alive (logic_of final) false | _ => logic_of final end).
+Proof. exact finish_screen_standalone. Qed.
+Print Assumptions C04_final_screen_standalone.
+
+(** Non-vacuity: a bar on a 1 Hz terminal, W = 10, H = 4: 30 zero-gap updates (both limiters
+    exhausted: the first 10 are painted, the other 20 are not), then finish_with_message "ok":
+    the hypotheses hold and the screen shows the final frame "ok:7". *)
+Definition exs_s0 : sys :=
+  mksys [new_bar (Some 7) FAndClear [PMsg; PLit [58]; PPos] (TTerm (new_ttarget (Some 1) 0)) 0]
+        (new_ms THidden) 0.
+Definition exs_h : list (N * op) := repeat (5, OInc 0 0) 30.
+Example C04_nonvacuous_screen :
+  let h := exs_h ++ [(6, OFinish 0 (FWithMessage [111; 107]))] in
+  sb_initial exs_s0 /\ hist_ok 10 4 exs_s0 (ghost_for term_init) h /\ Fits 10 4 exs_s0 h /\ ready 10 4 [] term_init
+  /\ finishing_op (fst (fst (sb_run 10 4 (exs_s0, ghost_for term_init, term_init) exs_h))) (OFinish 0 (FWithMessage [111; 107]))
+     = Some (FWithMessage [111; 107])
+  /\ map (fun e => match e with [] => 0 | _ => 1 end) (snd (run_sys 10 4 exs_s0 h))
+     = repeat 1 10 ++ repeat 0 20 ++ [1]
+  /\ screen 10 (snd (sb_run 10 4 (exs_s0, ghost_for term_init, term_init) h)) = map (pad 10) [[111; 107; 58; 55]].
+Proof.
+  split; [eexists; eexists; repeat split|]. split; [vm_compute; reflexivity|].
+  split; [vm_compute; reflexivity|]. split; [exact (ready_start 10 4 [] 0 0 (Nat.le_0_l _))|].
+  vm_compute. repeat split.
 Qed.
 
 (* ================================================================== screen level (model/MultiScreen.v) *)
